@@ -133,11 +133,12 @@ class Boc:
             result['size_bytes'] = data[4]
         else:
             raise BocError(f'unknown boc prefix: {data[:4]}')
-        if data_len - 5 < 1 + 5 * result['size_bytes']:
+        size_bytes = result['size_bytes']
+        # the fixed part of the header: size byte, offset byte, cells / roots / absent counts, total size of the cell data
+        if data_len < 6 + 3 * size_bytes or data_len < 6 + 3 * size_bytes + data[5]:
             raise BocError(f'can\'t parse boc header: {data[:4]}')
         offset_bytes = data[5]
         result['offset_bytes'] = offset_bytes
-        size_bytes = result['size_bytes']
 
         end = 6 + 3 * size_bytes
         result['cells_num'], result['roots_num'], result['absent_num'] \
